@@ -206,7 +206,7 @@ func c04Rules(p *core.Prog, r *core.Run) {
 	}
 
 	// ALERT.map
-	c04AlertMap(p, r, m)
+	c04AlertMap(p, r, m, "C04.ALERT.map")
 
 	// ALERT.deliver
 	c04AlertDeliver(p, r, m, "C04.ALERT.deliver")
@@ -595,6 +595,38 @@ func checkCursor(p *core.Prog, r *core.Run, m *echModel, rule string, app *ssa.C
 			}
 		}
 	}
+	// (where the increment is computed does not matter - `x := e[p]; p++; use(x)`
+	// computes it before the append -: what the cursor is on the way on from
+	// the append does)
+	if !advanced {
+		b := app.Block()
+		for n := 0; n < 8 && len(b.Succs) == 1 && !advanced; n++ {
+			next := b.Succs[0]
+			idx := -1
+			for i, pr := range next.Preds {
+				if pr == b {
+					idx = i
+				}
+			}
+			stop := false
+			for _, in := range next.Instrs {
+				ph2, isPhi := in.(*ssa.Phi)
+				if !isPhi || !seen[ph2] || idx < 0 {
+					continue
+				}
+				stop = true
+				for _, inc := range incs {
+					if ph2.Edges[idx] == ssa.Value(inc) && inc.X == ssa.Value(phi) {
+						advanced = true
+					}
+				}
+			}
+			if stop {
+				break
+			}
+			b = next
+		}
+	}
 	r.Check(rule, "process:cursor-advance", advanced, pos, "after the match the cursor is advanced past it, so an extension cannot be referenced twice and later references search forward only")
 	// guards of the append: cursor in range and (from the search loop) type equality; not-found aborts
 	fs := p.Facts(app.Block())
@@ -780,6 +812,69 @@ func c04ParserDiscipline(p *core.Prog, r *core.Run, rule string, fns []*ssa.Func
 			if neg {
 				fail = iff.Block().Succs[0]
 			}
+			// `ok := s.ReadX(..) && s.ReadY(..) && ...; if !ok { return err }`: the
+			// failing edge enters a merge that records "false" and tests it at
+			// once: the way on is the one a false flag takes
+			from := iff.Block()
+			for hop := 0; hop < 3; hop++ {
+				var flag *ssa.Phi
+				val, known := false, false
+				for _, in := range fail.Instrs {
+					ph, isPhi := in.(*ssa.Phi)
+					if !isPhi {
+						break
+					}
+					for k, pr := range fail.Preds {
+						if pr != from {
+							continue
+						}
+						if cst, isC := ph.Edges[k].(*ssa.Const); isC && cst.Value != nil && (cst.Value.ExactString() == "true" || cst.Value.ExactString() == "false") {
+							flag, val, known = ph, cst.Value.ExactString() == "true", true
+						}
+					}
+				}
+				if !known {
+					break
+				}
+				next, isIf := fail.Instrs[len(fail.Instrs)-1].(*ssa.If)
+				if !isIf {
+					break
+				}
+				cond, inv := next.Cond, false
+				for {
+					u, isNot := cond.(*ssa.UnOp)
+					if !isNot || u.Op != token.NOT {
+						break
+					}
+					cond, inv = u.X, !inv
+				}
+				if cond != ssa.Value(flag) {
+					break
+				}
+				// only the flag (and its negation) may be computed in between
+				pure := true
+				for _, in := range fail.Instrs[:len(fail.Instrs)-1] {
+					switch x := in.(type) {
+					case *ssa.Phi:
+					case *ssa.UnOp:
+						if x.Op != token.NOT {
+							pure = false
+						}
+					default:
+						pure = false
+					}
+				}
+				if !pure {
+					break
+				}
+				taken := val != inv
+				from = fail
+				if taken {
+					fail = fail.Succs[0]
+				} else {
+					fail = fail.Succs[1]
+				}
+			}
 			good := true
 			why := ""
 			reach := core.Reachable(fail, nil)
@@ -868,12 +963,12 @@ func isTableTest(p *core.Prog, f core.Fact) *tableRef {
 	return structTableField(p, call.Call.Args[1])
 }
 
-func c04AlertMap(p *core.Prog, r *core.Run, m *echModel) {
-	alertTargets(p, r, "C04.ALERT.map")
+func c04AlertMap(p *core.Prog, r *core.Run, m *echModel, rule string) {
+	alertTargets(p, r, rule)
 	conv := p.Func(Ech, "convertErrorsToAlerts")
 	send := p.Func(Ech, "sendAlert")
 	if conv == nil || send == nil {
-		r.Undecided("C04.ALERT.map", "convertErrorsToAlerts", "-", "convertErrorsToAlerts / sendAlert not found")
+		r.Undecided(rule, "convertErrorsToAlerts", "-", "convertErrorsToAlerts / sendAlert not found")
 		return
 	}
 	r.Analysed(p.FuncName(conv), p.FuncName(send))
@@ -946,12 +1041,12 @@ func c04AlertMap(p *core.Prog, r *core.Run, m *echModel) {
 					want, known := alertTable[name]
 					if seen[name] {
 						// an earlier row (or case) already answers for this sentinel
-						r.Check("C04.ALERT.map", fmt.Sprintf("map:row#%d", k), false, p.InstrPos(s.Instr), "row %d repeats sentinel %s", k, name)
+						r.Check(rule, fmt.Sprintf("map:row#%d", k), false, p.InstrPos(s.Instr), "row %d repeats sentinel %s", k, name)
 						continue
 					}
 					seen[name] = true
 					got[name] = d
-					r.Check("C04.ALERT.map", "map:"+name, known && okRow && d == want && level == 2 && okConn && errNonNil, p.InstrPos(s.Instr), "%s -> alert %d at level %d (RFC 8446: %d, fatal=2), row %d of the table", name, d, level, want, k)
+					r.Check(rule, "map:"+name, known && okRow && d == want && level == 2 && okConn && errNonNil, p.InstrPos(s.Instr), "%s -> alert %d at level %d (RFC 8446: %d, fatal=2), row %d of the table", name, d, level, want, k)
 				}
 				continue
 			}
@@ -963,7 +1058,10 @@ func c04AlertMap(p *core.Prog, r *core.Run, m *echModel) {
 					origin = c.from
 				}
 				for h, body := range core.Loops(conv) {
-					if body[origin] || !h.Dominates(origin) {
+					// (the value may also come straight from the loop's head, on the
+					// edge taken when the table is exhausted: `d := 40; for ... { if
+					// match { d = row.d; break } }`)
+					if (body[origin] && origin != h) || !h.Dominates(origin) {
 						continue
 					}
 					var tr *tableRef
@@ -1011,23 +1109,23 @@ func c04AlertMap(p *core.Prog, r *core.Run, m *echModel) {
 				want, known := alertTable[pos[0]]
 				seen[pos[0]] = true
 				got[pos[0]] = desc
-				r.Check("C04.ALERT.map", "map:"+pos[0], known && okD && desc == want && level == 2 && okConn && errNonNil, p.InstrPos(s.Instr), "%s -> alert %d at level %d (RFC 8446: %d, fatal=2)", pos[0], desc, level, want)
+				r.Check(rule, "map:"+pos[0], known && okD && desc == want && level == 2 && okConn && errNonNil, p.InstrPos(s.Instr), "%s -> alert %d at level %d (RFC 8446: %d, fatal=2)", pos[0], desc, level, want)
 			case len(pos) == 0:
 				deflt = true
 				sort.Strings(negs)
 				all := len(negs) == len(alertTable)
 				got["default"] = desc
-				r.Check("C04.ALERT.map", "map:default", okD && desc == 40 && level == 2 && all && errNonNil, p.InstrPos(s.Instr), "any other non-nil error -> alert %d (handshake_failure = 40) at level %d, after all %d sentinels were tested (%d)", desc, level, len(alertTable), len(negs))
+				r.Check(rule, "map:default", okD && desc == 40 && level == 2 && all && errNonNil, p.InstrPos(s.Instr), "any other non-nil error -> alert %d (handshake_failure = 40) at level %d, after all %d sentinels were tested (%d)", desc, level, len(alertTable), len(negs))
 			default:
-				r.Check("C04.ALERT.map", "map:ambiguous", false, p.InstrPos(s.Instr), "alert sent under several sentinels at once: %v", pos)
+				r.Check(rule, "map:ambiguous", false, p.InstrPos(s.Instr), "alert sent under several sentinels at once: %v", pos)
 			}
 		}
 	}
 	r.Tables["alert_map"] = got
 	for name := range alertTable {
-		r.Check("C04.ALERT.map", "covered:"+name, seen[name], p.Pos(conv.Pos()), "sentinel %s has an alert mapping", name)
+		r.Check(rule, "covered:"+name, seen[name], p.Pos(conv.Pos()), "sentinel %s has an alert mapping", name)
 	}
-	r.Check("C04.ALERT.map", "default", deflt, p.Pos(conv.Pos()), "a default alert exists")
+	r.Check(rule, "default", deflt, p.Pos(conv.Pos()), "a default alert exists")
 	// exhaustive over sentinels that the handler can return
 	used := map[string]bool{}
 	for _, fn := range reachableFuncs(p, m.handle) {
@@ -1047,7 +1145,39 @@ func c04AlertMap(p *core.Prog, r *core.Run, m *echModel) {
 	}
 	for g := range used {
 		_, known := alertTable[g]
-		r.Check("C04.ALERT.map", "used:"+g, known && seen[g], p.Pos(conv.Pos()), "sentinel %s, returned somewhere under the hello handler, is mapped to its own alert", g)
+		r.Check(rule, "used:"+g, known && seen[g], p.Pos(conv.Pos()), "sentinel %s, returned somewhere under the hello handler, is mapped to its own alert", g)
+	}
+	// an error belongs to one class: the alert sent is the first class that
+	// matches, the caller may test for any; an error that wraps two errors is of
+	// one class only if both are
+	for _, fn := range reachableFuncs(p, m.newConn, m.read, m.handle) {
+		if !inModule(p, fn) {
+			continue
+		}
+		nJoin := 0
+		for _, s := range callSites(p, []*ssa.Function{fn}, `fmt\.Errorf|errors\.Join`) {
+			c, isCall := s.Instr.(*ssa.Call)
+			if !isCall {
+				continue
+			}
+			ops, known := wrappedOperands(p, c)
+			if !known || len(ops) < 2 {
+				continue
+			}
+			nJoin++
+			classes := map[string]bool{}
+			opaque := 0
+			for _, o := range ops {
+				got := errorSentinels(p, o)
+				if len(got) == 0 {
+					opaque++
+				}
+				for _, g := range got {
+					classes[g] = true
+				}
+			}
+			r.Check(rule, fmt.Sprintf("one-class:%s#%d", p.FuncName(fn), nJoin), len(classes) <= 1 && opaque == 0, p.InstrPos(s.Instr), "an error made of several errors belongs to one class only (classes %v, %d operand(s) of unknown class): the alert sent is the first class that matches", keysOf(classes), opaque)
+		}
 	}
 	// sendAlert: record bytes and close
 	var arr []string
@@ -1061,7 +1191,7 @@ func c04AlertMap(p *core.Prog, r *core.Run, m *echModel) {
 		}
 	}
 	want := []string{"21", "3", "3", "0", "2", "p1", "p2"}
-	r.Check("C04.ALERT.map", "sendAlert:record", strings.Join(arr, ",") == strings.Join(want, ","), p.Pos(send.Pos()), "sendAlert writes the record 15 03 03 00 02 level description (got %v)", arr)
+	r.Check(rule, "sendAlert:record", strings.Join(arr, ",") == strings.Join(want, ","), p.Pos(send.Pos()), "sendAlert writes the record 15 03 03 00 02 level description (got %v)", arr)
 	writes := callSites(p, []*ssa.Function{send}, `\(io\.WriteCloser\)\.Write|\(net\.Conn\)\.Write|\(io\.Writer\)\.Write`)
 	closes := callSites(p, []*ssa.Function{send}, `\(io\.WriteCloser\)\.Close|\(net\.Conn\)\.Close|\(io\.Closer\)\.Close`)
 	okW := len(writes) == 1 && len(p.Facts(writes[0].Block())) == 0
@@ -1072,9 +1202,9 @@ func c04AlertMap(p *core.Prog, r *core.Run, m *echModel) {
 			okC = true
 		}
 	}
-	r.Check("C04.ALERT.map", "sendAlert:write", okW, p.Pos(send.Pos()), "the alert is written unconditionally")
-	r.Check("C04.ALERT.map", "sendAlert:close", okC, p.Pos(send.Pos()), "the connection is closed after a fatal (level 2) alert, so the client sees end of stream")
-	r.Floor("C04.ALERT.map", 14)
+	r.Check(rule, "sendAlert:write", okW, p.Pos(send.Pos()), "the alert is written unconditionally")
+	r.Check(rule, "sendAlert:close", okC, p.Pos(send.Pos()), "the connection is closed after a fatal (level 2) alert, so the client sees end of stream")
+	r.Floor(rule, 14)
 }
 
 func c04AlertDeliver(p *core.Prog, r *core.Run, m *echModel, rule string) {
